@@ -151,6 +151,17 @@ example : Canon68 (fld 0xBBB38000 31 1) (fld 0xBBB38000 23 8) (fld 0xBBB38000 0 
 example : ¬ Canon68 (fld 0x44000001 31 1) (fld 0x44000001 23 8) (fld 0x44000001 0 23) := by
   unfold Canon68; decide
 
+/-- **Code 68, every encoder output is canonical and `to68 ∘ from68` is the identity on the image of `to68`**:
+for every dyadic `m·2^e` (every finite double; clamps included) the word `to68 v` is a 32-bit canonical word, and
+decoding it and encoding again gives back the same word. -/
+theorem to68_from68_to68 (m e : Int) :
+    to68 m e < 2 ^ 32 ∧ Canon68 (fld (to68 m e) 31 1) (fld (to68 m e) 23 8) (fld (to68 m e) 0 23) ∧
+    ∃ d, from68 ((to68 m e : Nat) : Int) = .fin d ∧ to68 d.m d.e = to68 m e := by
+  obtain ⟨hc, hlt⟩ := to68_canonical m e
+  exact ⟨hlt, hc, (to68_from68_fixed_iff _ hlt).2 hc⟩
+
+example : to68 1 (-2) = 0x3FC00000 ∧ from68 0x3FC00000 = .fin ⟨4194304, -24⟩ ∧ to68 4194304 (-24) = 0x3FC00000 := by decide
+
 /-- the range in which `to68` neither clamps nor depresses the mantissa: `2^-129 ≤ |m·2^e| < 2^127`, expressed
 through the exponent that `frexp` returns -/
 def InRange68 (m e : Int) : Prop := m ≠ 0 ∧ -128 ≤ frexpExp m e ∧ frexpExp m e ≤ 127
